@@ -14,10 +14,18 @@ PARAM = "<param>"
 class ReachingDefs:
     """defs are (name, cfg_node) ; cfg_node == -1 means the parameter binding at entry."""
 
-    def __init__(self, func: Func):
+    def __init__(self, func: Func, cut_backedges_to: Optional[int] = None):
         self.func = func
         self.cfg: CFG = cfg_of(func)
         g = self.cfg.g
+        if cut_backedges_to is not None:
+            # view of the CFG without the edges that return to the given loop header from its body
+            g = g.copy()
+            body = self.cfg.stmts_in_loop(self.cfg.ast_of(cut_backedges_to))
+            for p in list(g.predecessors(cut_backedges_to)):
+                if p in body:
+                    g.remove_edge(p, cut_backedges_to)
+        self.g = g
         self.gen: Dict[int, Set[str]] = {}
         for n in g.nodes:
             a = self.cfg.ast_of(n)
@@ -91,7 +99,7 @@ class ReachingDefs:
     def uses_of(self, def_node: int, name: str) -> List[ast.Name]:
         """Name loads of ``name`` reached by the definition at cfg node ``def_node``."""
         out = []
-        for n in self.cfg.g.nodes:
+        for n in self.g.nodes:
             if (name, def_node) in self.IN[n]:
                 a = self.cfg.ast_of(n)
                 if a is None:
@@ -170,3 +178,29 @@ def value_sources(func: Func, expr: ast.AST, at: Optional[ast.AST] = None, depth
 
     visit_expr(expr, at if at is not None else expr, depth)
     return params, visited
+
+
+def loop_carried(func: Func, loop_stmt: ast.AST, ignore: Set[str] = frozenset()) -> List[Tuple[str, ast.AST, ast.AST]]:
+    """(name, use, defining statement) for every name read inside ``loop_stmt``'s body whose value may
+    come from a *previous* iteration of that loop (a definition inside the body that reaches the
+    use only around the back edge)."""
+    full = reaching(func)
+    h = full.cfg.node(loop_stmt)
+    cut = ReachingDefs(func, cut_backedges_to=h)
+    body = full.cfg.stmts_in_loop(loop_stmt)
+    out = []
+    seen = set()
+    for n in body:
+        a = full.cfg.ast_of(n)
+        if a is None:
+            continue
+        for sub in _header_nodes(a, full.cfg.kind(n)):
+            for x in ast.walk(sub):
+                if isinstance(x, ast.Name) and isinstance(x.ctx, ast.Load) and x.id not in ignore:
+                    fd = {d for d in full.IN[n] if d[0] == x.id}
+                    cd = {d for d in cut.IN[n] if d[0] == x.id}
+                    for (nm, dn) in fd - cd:
+                        if dn in body and (nm, dn, n) not in seen:
+                            seen.add((nm, dn, n))
+                            out.append((nm, x, full.cfg.ast_of(dn)))
+    return out
